@@ -2,7 +2,7 @@
    exactly the content the sending endpoint put on that stream (header lists, DATA bytes, END_STREAM
    on the same element, RST_STREAM code, PUSH_PROMISE, PRIORITY, in order). *)
 From FwdLib Require Import Bytes.
-From G09 Require Import Tables H2Relay Ledger FlowBasics WinProofs PairBasics PairWin FifoProofs PairFifo Spec Content.
+From G09 Require Import Tables H2Relay Ledger FlowBasics WinProofs PairBasics Lift PairWin FifoProofs PairFifo Spec Content.
 Open Scope N_scope.
 
 Definition head_ok (open : option N) (f : rframe) : Prop :=
@@ -39,6 +39,7 @@ Section Codec.
 
   Notation relay := (relay dstate estate).
   Notation pair := (pair dstate estate).
+  Notation pcore := (pcore dec dresize).
   Notation pstep := (pstep dec enc dresize eresize).
   Notation run := (H2Relay.run dec enc dresize eresize).
   Notation spec_elems := (spec_elems dstate dec).
@@ -59,38 +60,38 @@ Section Codec.
     end.
 
   Lemma apply_settings_codec : forall l orders (peer : relay) acc,
-    let r := fst (fst (apply_settings dresize eresize l orders peer acc)) in
+    let r := fst (fst (apply_settings dresize l orders peer acc)) in
     r_dst r = r_dst peer /\ r_hbuf r = r_hbuf peer /\ r_cont r = r_cont peer.
   Proof.
     induction l as [|[k v] rest IH]; intros orders peer acc; cbn [apply_settings]; [cbn; auto|].
     destruct (settings_validated && negb (setting_valid k v)); [cbn; auto|].
     destruct (k =? 1).
-    { rewrite Hdec. apply (IH orders (mkRelay (r_flow peer) (r_cont peer) (r_hbuf peer) (r_dst peer) (eresize (r_est peer) v)) acc). }
+    { rewrite Hdec. apply (IH orders (mkRelay (r_flow peer) (r_cont peer) (r_hbuf peer) (r_dst peer) (r_est peer)) (acc ++ [OResize v])). }
     destruct (k =? 4).
     - destruct (update_init v (hd [] orders) (r_flow peer)) as [fl e].
-      apply (IH (tl orders) (with_flow peer fl) (acc ++ e)).
-    - destruct (k =? 5); [apply (IH orders (with_flow peer (update_max v (r_flow peer))) acc)|apply IH].
+      apply (IH (tl orders) (with_flow peer fl) (acc ++ oq e)).
+    - destruct (k =? 5); [apply (IH orders (with_flow peer (update_max v (r_flow peer))) (acc ++ [OSetMax v]))|apply IH].
   Qed.
 
   (* a frame from endpoint x does not touch the reassembly state of the relay that sends towards x *)
-  Lemma step_ci_from (p : pair) from f orders dst pend :
-    CI (toward from p) dst pend -> CI (toward from (s_pair (pstep p from f orders))) dst pend.
+  Lemma core_ci_from (p : pair) from f orders dst pend :
+    CI (toward from p) dst pend -> CI (toward from (s_pair (pcore p from f orders))) dst pend.
   Proof.
-    intro H. unfold pstep. cbv zeta.
+    intro H. unfold pcore. cbv zeta.
     destruct f as [id es d flen|id es eh pr frag|id eh frag|id pm eh frag|id pr|id code|ack st|ack d|last code dbg|id inc|].
     - destruct (data_pieces _ _ id d es) as [ps|]; [destruct (enqueue_all ps _) as [fl em]|]; rewrite res_toward_from; exact H.
     - destruct eh; [|rewrite res_toward_from; exact H]. destruct (dec _ frag) as [[fields|] dst']; [|rewrite res_toward_from; exact H].
-      destruct (r_header _ _ _ _ _ _) as [[[me' em] q]|]; rewrite res_toward_from; exact H.
+      destruct (r_header _ _ _ _ _) as [[[me' em] q]|]; rewrite res_toward_from; exact H.
     - destruct eh; [|rewrite res_toward_from; exact H]. destruct (dec _ _) as [[fields|] dst']; [|rewrite res_toward_from; exact H].
       cbn [r_cont]. destruct (r_cont _); [|rewrite res_toward_from; exact H].
-      destruct (complete _ _ _ _) as [[[me' em] q]|]; rewrite res_toward_from; exact H.
+      destruct (complete _ _ _) as [[[me' em] q]|]; rewrite res_toward_from; exact H.
     - destruct eh; [|rewrite res_toward_from; exact H]. destruct (dec _ frag) as [[fields|] dst']; [|rewrite res_toward_from; exact H].
-      destruct (r_push _ _ _ _ _) as [[[me' em] q]|]; rewrite res_toward_from; exact H.
+      destruct (r_push _ _ _ _) as [[[me' em] q]|]; rewrite res_toward_from; exact H.
     - destruct (enqueue_emit _ _) as [fl em]. rewrite res_toward_from; exact H.
     - destruct (enqueue_emit _ _) as [fl em]. rewrite res_toward_from; exact H.
     - destruct ack; [rewrite res_toward_from; exact H|].
       pose proof (apply_settings_codec st orders (toward from p) []) as Hc. cbv zeta in Hc.
-      destruct (apply_settings _ _ _ _ _ _) as [[peer' acc'] ok]. cbn [fst] in Hc. destruct Hc as [H1 [H2 H3]].
+      destruct (apply_settings _ _ _ _ _) as [[peer' acc'] ok]. cbn [fst] in Hc. destruct Hc as [H1 [H2 H3]].
       destruct ok; rewrite res_toward_from; unfold CI in *; rewrite H1, H2, H3; exact H.
     - rewrite res_toward_from; exact H.
     - rewrite res_toward_from; exact H.
@@ -101,17 +102,17 @@ Section Codec.
   Ltac done_other := rewrite ?res_toward_other, ?res_enq.
 
   (* a frame from endpoint y, read by the relay that sends towards the other endpoint *)
-  Lemma step_content (p : pair) from f orders s dst pend :
+  Lemma core_content (p : pair) from f orders s dst pend :
     frame_wf f ->
     CI (toward (other from) p) dst pend -> head_ok (open_of pend) f ->
-    s_status (pstep p from f orders) = Ok ->
+    s_status (pcore p from f orders) = Ok ->
     exists E dst' pend',
       (forall R, spec_elems s dst pend (f :: R) = E ++ spec_elems s dst' pend' R) /\
-      eqv (flat_map q_elems (on s (s_enq (pstep p from f orders)))) E /\
-      CI (toward (other from) (s_pair (pstep p from f orders))) dst' pend' /\
+      eqv (flat_map q_elems (on s (s_enq (pcore p from f orders)))) E /\
+      CI (toward (other from) (s_pair (pcore p from f orders))) dst' pend' /\
       open_of pend' = next_open (open_of pend) f.
   Proof.
-    intros Hwf [Hd Hp] Hh. unfold pstep. cbv zeta. remember (toward (other from) p) as me eqn:Eme. clear Eme.
+    intros Hwf [Hd Hp] Hh. unfold pcore. cbv zeta. remember (toward (other from) p) as me eqn:Eme. clear Eme.
     destruct f as [id es d flen|id es eh pr frag|id eh frag|id pm eh frag|id pr|id code|ack st|ack d|last code dbg|id inc|];
       cbn [frame_wf] in Hwf.
     - (* DATA *)
@@ -127,11 +128,10 @@ Section Codec.
       destruct pend as [[ctx acc]|]; [destruct Hp as [_ [_ Hn]]; destruct ctx; cbn in Hh; try contradiction; congruence|].
       destruct eh.
       + destruct (dec (r_dst me) frag) as [[fields|] dst'] eqn:Edec; [|rewrite res_status; discriminate].
-        destruct (r_header _ _ _ _ _ _) as [[[me' em] q]|] eqn:Eh; [|rewrite res_status; discriminate].
+        destruct (r_header _ _ _ _ _) as [[[me' em] q]|] eqn:Eh; [|rewrite res_status; discriminate].
         intros _. done_other.
-        pose proof Eh as Eh2. apply r_header_flow in Eh2 as [_ [_ [Hc' [Hb' Hd']]]].
-        unfold r_header in Eh. destruct (enc _ fields) as [bytes est']. destruct (split_chunks _ _ bytes) as [ch|]; [|discriminate].
-        destruct (enqueue_emit _ _) as [fl em']. inversion Eh; subst q me' em'.
+        pose proof Eh as Eh2. apply r_header_flow in Eh2 as [_ [_ [Hc' [Hb' [Hd' _]]]]].
+        unfold r_header in Eh. destruct (enqueue_emit _ _) as [fl em']. inversion Eh; subst q me' em'.
         exists (ctx_elems s (HHdr id es pr) (Some fields)), dst', None.
         split; [intro R; cbn [spec_elems]; rewrite <- Hd, Edec; reflexivity|].
         split; [|split; [split; [cbn [r_dst]; reflexivity|exact I]|reflexivity]].
@@ -148,20 +148,18 @@ Section Codec.
         cbn [r_cont]. rewrite Hc.
         destruct ctx as [|hid hes hp|hid hpr]; [congruence| |]; cbn [cstate_of ctx_id] in *.
         * unfold complete. cbn [r_cont cstate_of]. rewrite Hcont.
-          destruct (r_header _ _ _ _ _ _) as [[[me' em] q]|] eqn:Eh; [|rewrite res_status; discriminate].
+          destruct (r_header _ _ _ _ _) as [[[me' em] q]|] eqn:Eh; [|rewrite res_status; discriminate].
           intros _. done_other.
-          unfold r_header in Eh. destruct (enc _ fields) as [bytes est']. destruct (split_chunks _ _ bytes) as [ch|]; [|discriminate].
-          destruct (enqueue_emit _ _) as [fl em']. inversion Eh; subst q me' em'.
+          unfold r_header in Eh. destruct (enqueue_emit _ _) as [fl em']. inversion Eh; subst q me' em'.
           exists (ctx_elems s (HHdr hid hes hp) (Some fields)), dst', None.
           split; [intro R; cbn [spec_elems]; rewrite <- Hd, Edec; reflexivity|].
           split; [|split; [split; [cbn [r_dst]; reflexivity|exact I]|reflexivity]].
           inversion Hid; subst hid.
           cbn [on filter q_id ctx_elems]. destruct (id =? s); cbn [flat_map q_elems app]; apply eqv_refl.
         * unfold complete. cbn [r_cont cstate_of].
-          destruct (r_push _ _ _ _ _) as [[[me' em] q]|] eqn:Eh; [|rewrite res_status; discriminate].
+          destruct (r_push _ _ _ _) as [[[me' em] q]|] eqn:Eh; [|rewrite res_status; discriminate].
           intros _. done_other.
-          unfold r_push in Eh. destruct (enc _ fields) as [bytes est']. destruct (split_chunks _ _ bytes) as [ch|]; [|discriminate].
-          destruct (enqueue_emit _ _) as [fl em']. inversion Eh; subst q me' em'.
+          unfold r_push in Eh. destruct (enqueue_emit _ _) as [fl em']. inversion Eh; subst q me' em'.
           exists (ctx_elems s (HPush hid hpr) (Some fields)), dst', None.
           split; [intro R; cbn [spec_elems]; rewrite <- Hd, Edec; reflexivity|].
           split; [|split; [split; [cbn [r_dst]; reflexivity|exact I]|reflexivity]].
@@ -175,10 +173,9 @@ Section Codec.
       destruct pend as [[ctx acc]|]; [destruct Hp as [_ [_ Hn]]; destruct ctx; cbn in Hh; try contradiction; congruence|].
       destruct eh.
       + destruct (dec (r_dst me) frag) as [[fields|] dst'] eqn:Edec; [|rewrite res_status; discriminate].
-        destruct (r_push _ _ _ _ _) as [[[me' em] q]|] eqn:Eh; [|rewrite res_status; discriminate].
+        destruct (r_push _ _ _ _) as [[[me' em] q]|] eqn:Eh; [|rewrite res_status; discriminate].
         intros _. done_other.
-        unfold r_push in Eh. destruct (enc _ fields) as [bytes est']. destruct (split_chunks _ _ bytes) as [ch|]; [|discriminate].
-        destruct (enqueue_emit _ _) as [fl em']. inversion Eh; subst q me' em'.
+        unfold r_push in Eh. destruct (enqueue_emit _ _) as [fl em']. inversion Eh; subst q me' em'.
         exists (ctx_elems s (HPush id pm) (Some fields)), dst', None.
         split; [intro R; cbn [spec_elems]; rewrite <- Hd, Edec; reflexivity|].
         split; [|split; [split; [cbn [r_dst]; reflexivity|exact I]|reflexivity]].
@@ -197,7 +194,7 @@ Section Codec.
     - destruct ack.
       + intros _. done_other. exists [], dst, pend. split; [intro R; reflexivity|]. split; [apply eqv_refl|].
         split; [split; [exact Hd|exact Hp]|destruct pend as [[[] ?]|]; reflexivity].
-      + destruct (apply_settings _ _ _ _ _ _) as [[peer' acc'] ok]. destruct ok; [|rewrite res_status; discriminate].
+      + destruct (apply_settings _ _ _ _ _) as [[peer' acc'] ok]. destruct ok; [|rewrite res_status; discriminate].
         intros _. done_other. exists [], dst, pend. split; [intro R; reflexivity|]. split; [apply eqv_refl|].
         split; [split; [exact Hd|exact Hp]|destruct pend as [[[] ?]|]; reflexivity].
     - intros _. done_other. exists [], dst, pend. split; [intro R; reflexivity|]. split; [apply eqv_refl|].
@@ -209,6 +206,35 @@ Section Codec.
       split; [split; [exact Hd|exact Hp]|destruct pend as [[[] ?]|]; reflexivity].
     - rewrite res_status. discriminate.
   Qed.
+  Lemma CI_flow (r r' : relay) dst pend :
+    r_dst r' = r_dst r -> r_cont r' = r_cont r -> r_hbuf r' = r_hbuf r -> CI r dst pend -> CI r' dst pend.
+  Proof. intros H1 H2 H3 [Hd Hp]. unfold CI. rewrite H1, H2, H3. split; assumption. Qed.
+
+  Lemma step_ci_from (p : pair) from f orders dst pend :
+    CI (toward from p) dst pend -> CI (toward from (s_pair (pstep p from f orders))) dst pend.
+  Proof.
+    intro H. destruct (pstep_flow dstate estate dec enc dresize eresize p from f orders from) as [_ [H1 [H2 H3]]].
+    exact (CI_flow _ _ dst pend H1 H2 H3 (core_ci_from p from f orders dst pend H)).
+  Qed.
+
+  Lemma step_content (p : pair) from f orders s dst pend :
+    frame_wf f ->
+    CI (toward (other from) p) dst pend -> head_ok (open_of pend) f ->
+    s_status (pstep p from f orders) = Ok ->
+    exists E dst' pend',
+      (forall R, spec_elems s dst pend (f :: R) = E ++ spec_elems s dst' pend' R) /\
+      eqv (flat_map q_elems (on s (s_enq (pstep p from f orders)))) E /\
+      CI (toward (other from) (s_pair (pstep p from f orders))) dst' pend' /\
+      open_of pend' = next_open (open_of pend) f.
+  Proof.
+    intros Hwf Hci Hh Hok.
+    pose proof (pstep_ok dstate estate dec enc dresize eresize p from f orders Hok) as Hok0.
+    destruct (core_content p from f orders s dst pend Hwf Hci Hh Hok0) as [E [dst' [pend' [H1 [H2 [H3 H4]]]]]].
+    exists E, dst', pend'. rewrite (pstep_enq dstate estate dec enc dresize eresize p from f orders Hok).
+    destruct (pstep_flow dstate estate dec enc dresize eresize p from f orders (other from)) as [_ [F1 [F2 F3]]].
+    split; [exact H1|]. split; [exact H2|]. split; [exact (CI_flow _ _ dst' pend' F1 F2 F3 H3)|exact H4].
+  Qed.
+
   Lemma other_other x : other (other x) = x.
   Proof. destruct x; reflexivity. Qed.
 
@@ -246,15 +272,22 @@ Section Codec.
 
   Notation pair0 := (pair0 dstate estate).
 
-  (* T10_fifo: per stream, released ++ held = queued, in order *)
+  Lemma q_elems_strip q : q_elems (strip q) = q_elems q.
+  Proof. destruct q; reflexivity. Qed.
+  Lemma elems_strip l : flat_map q_elems (map strip l) = flat_map q_elems l.
+  Proof. induction l as [|q r IH]; [reflexivity|]. cbn [map flat_map]. rewrite q_elems_strip, IH. reflexivity. Qed.
+
+  (* T10_fifo: per stream, released ++ held = queued, in order (the chunks of a header frame are filled in
+     when it is released: frames are compared without them) *)
   Theorem fifo_from_start : forall evs d1 e1 d2 e2 x s, hist_wf evs ->
     let r := run (pair0 d1 e1 d2 e2) evs in
-    on s (emitted_to x (snd r)) ++ queue_of (r_flow (toward x (fst r))) s = on s (enqueued_for x (snd r)).
+    all_ok (snd r) ->
+    map strip (on s (emitted_to x (snd r)) ++ queue_of (r_flow (toward x (fst r))) s) = map strip (on s (enqueued_for x (snd r))).
   Proof.
-    intros evs d1 e1 d2 e2 x s Hwf r.
+    intros evs d1 e1 d2 e2 x s Hwf r Hok.
     assert (HQ : QInv (r_flow (toward x (pair0 d1 e1 d2 e2)))) by (rewrite toward_pair0; exact QInv0).
-    pose proof (proj1 (run_fifo dstate estate dec enc dresize eresize evs (pair0 d1 e1 d2 e2) x Hwf HQ) s) as H.
-    rewrite toward_pair0 in H. exact H.
+    pose proof (proj1 (run_fifo dstate estate dec enc dresize eresize evs (pair0 d1 e1 d2 e2) x Hwf HQ Hok) s) as H.
+    rewrite toward_pair0 in H. rewrite map_app. exact H.
   Qed.
 
   (* T10_fidelity *)
@@ -266,8 +299,8 @@ Section Codec.
     spec_content dstate dec s (r_dst (toward x (pair0 d1 e1 d2 e2))) (inputs (other x) evs).
   Proof.
     intros evs d1 e1 d2 e2 x s Hwf Hseq r Hok. subst r.
-    rewrite (fifo_from_start evs d1 e1 d2 e2 x s Hwf).
-    unfold qcontent, spec_content. apply eqv_norm.
+    unfold qcontent. rewrite <- elems_strip, (fifo_from_start evs d1 e1 d2 e2 x s Hwf Hok), elems_strip.
+    unfold spec_content. apply eqv_norm.
     apply (run_content evs (pair0 d1 e1 d2 e2) x s _ None Hwf); [split; [reflexivity|exact I]|exact Hseq|exact Hok].
   Qed.
 End Codec.
